@@ -276,6 +276,8 @@ class ValueGen:
         n = self.nodes[k]
         kind = n.kind()
         deep = depth >= self.max_depth
+        if depth > self.max_depth + 8:
+            return None
         if kind == "null":
             return "null"
         if kind == "boolean":
@@ -294,11 +296,16 @@ class ValueGen:
             return "(string %s)" % hx(rand_str(rng))
         if kind == "array":
             cnt = 0 if deep else rng.choice([0, 0, 1, 2, 3, 5])
-            return "(array%s)" % self.blocks([self.gen(n.items, depth + 1) for _ in range(cnt)])
+            its = [self.gen(n.items, depth + 1) for _ in range(cnt)]
+            if any(x is None for x in its):
+                its = []
+            return "(array%s)" % self.blocks(its)
         if kind == "map":
             cnt = 0 if deep else rng.choice([0, 0, 1, 2, 3])
-            return "(map%s)" % self.blocks(["(%s %s)" % (hx(rand_str(rng, 4)), self.gen(n.values, depth + 1))
-                                            for _ in range(cnt)])
+            its = [self.gen(n.values, depth + 1) for _ in range(cnt)]
+            if any(x is None for x in its):
+                its = []
+            return "(map%s)" % self.blocks(["(%s %s)" % (hx(rand_str(rng, 4)), x) for x in its])
         if kind == "union":
             idxs = list(range(len(n.variants)))
             if deep:
